@@ -23,22 +23,43 @@ TIE = {'convert.py converters, vote.py subsetters': 'correspondence',
        'component/rankscore.py Dowdall / Geometric / ModifiedBorda / FixedTop': 'translator (per-rank score expressions regenerated into Gen/Rankscore.v on '
                                                                                    'every run, Props/GenTie_Rankscore.v proves them equal to Model/Convert.v rank_scores) + correspondence',
        'component/rankscore.py Borda (stateful) / SequenceBased (slicing)': 'correspondence',
-       'convert.py RoundedVotes (alone and behind Chain)': 'declarative oracle in the harness (exact rational rounding, no Coq unit)'}
+       'convert.py VoteTotals / MergedDistributions / ConstituencyTotals / PartyTotals / InvertedSimpleVotes / GroupVotesByParty / '
+       'IndividualToPartyResult / SelectionToDistribution / MergedSelections / ByConstituency / Chain (Model/Convert2.v, unit 210)': 'correspondence',
+       'convert.py RoundedVotes (alone, behind Chain, inside ByConstituency)': 'correspondence with Model/Convert2.v round_q (exact rounding) inside the 28 digit '
+                                                                              'domain and with round_code (28 digit quotient first, InvalidOperation) everywhere, '
+                                                                              '+ independent exact-rational oracle in the harness'}
 RULE = ('corpus; ranked profiles over 2..5 candidates (shared ranks 25 %, truncation, empty ballots, duplicate images by construction), '
         'approval and score profiles (grades 0..5, partial ballots); every modelled converter (15 kinds x configurations, six rank scorers) '
         'compared with the model; additivity stream: each profile split into two sub-profiles (all splits for <=4 ballots, 6 random '
-        'otherwise) and conv(A+B) == conv(A)+conv(B) evaluated on the implementation (same candidate set for profile-dependent images); '
-        'impl-only additivity for VoteTotals/ConstituencyTotals/GroupVotesByParty/InvertedSimpleVotes/Chain. rounded stream: RoundedVotes '
+        'otherwise) and conv(A+B) == conv(A)+conv(B) evaluated on the implementation (same candidate set for profile-dependent images). '
+        'totals stream (unit 210): nested profiles of 1..4 constituencies (simple / ranked / approval / score ballots, empty constituencies, zero '
+        'and rational counts, counts of 10^20) through VoteTotals, MergedDistributions (dictionary or list), ConstituencyTotals, PartyTotals, '
+        'ByConstituency(inner converter), and Chains of them with InvertedSimpleVotes / RoundedVotes; person candidates with parties through '
+        'GroupVotesByParty (independents aggregated or ignored), IndividualToPartyVotes, PartyTotals after grouping; selections through '
+        'IndividualToPartyResult, SelectionToDistribution, MergedSelections (dictionary or list), ByConstituency(SelectionToDistribution) + '
+        'MergedDistributions; model = implementation key by key (zero-count keys included), the documented image recomputed independently, '
+        'additivity over every sampled split of the constituencies / ballots, total weight. chain stream: type-correct Chains of 1..4 links '
+        '(nested Chains too) over ranked / approval / score / simple profiles from the 11 chainable accumulating converters, InvertedSimpleVotes '
+        'and RoundedVotes (last, or followed by inversion / rounding only); blank approval ballots in 10 % of the approval profiles; additivity over '
+        'splits for Chains of additive links. rounded stream: RoundedVotes '
         '(and Chain[ApprovalToSimpleVotes(split), RoundedVotes]) on simple / ranked / approval / score ballots, 0..6 decimals, default + the '
         'eight decimal rounding modes, counts as int / Fraction / Decimal / binary-exact float placed exactly on a half of the kept digit '
         '(even and odd digit before, up to 10^20), just beside it, on the grid, just above the grid, non-terminating fractions, a few '
-        'negative counts; every count compared with exact rational rounding computed in the harness, keys and ballot count unchanged; '
-        'negative decimals refused with ValueError. non-trivial = shared rank or two ballots with the same image or a truncated ballot '
-        '(rounded: a count that is not already on the grid); distinct by case hash')
-PARTIAL = ['RoundedVotes is not additive by nature: only its per-ballot image is decided (harness oracle exact_round, no Coq unit); counts whose '
-           'exact decimal expansion needs more than the 28 significant digits of the default decimal context (the library divides '
-           'numerator by denominator once at that precision) are outside the explored domain',
-           'MergedSelections/Distributions, ByConstituency wrapper: not exercised']
+        'negative counts; every count compared with the model (exact rounding round_q or the code path round_code, drawn per case) and with exact '
+        'rational rounding computed in the harness, keys and ballot count unchanged; negative decimals refused with ValueError. rounded-wide stream: '
+        'counts outside the exact domain of the 28 digit decimal context (Fractions within 10^-27..10^-40 of a half or of the grid, non-terminating '
+        'fractions with denominators up to 3*10^27, Decimals of 29..40 digits, results of more than 28 digits) against round_code only. '
+        'non-trivial = shared rank or two ballots with the same image or a truncated ballot '
+        '(rounded: a count that is not already on the grid; totals: more than one constituency; chain: more than one ballot or link); distinct by case hash')
+PARTIAL = ['RoundedVotes is not additive by nature (C13_rounded_additive_refuted, C13_chain_rounded_refuted): its per-ballot image is decided. The exact '
+           'image round_q holds of the code for counts the library\'s single 28 digit division represents exactly (sig_round 28 x == x: every count '
+           'with at most 28 significant digits; C13_rounded_code_exact) and whose result fits 28 digits; outside, the library rounds twice '
+           '(C13_rounded_double_rounding_refuted: Fraction 1/2 + 10^-30, ROUND_HALF_DOWN, 0 decimals -> 0) or raises InvalidOperation - behaviour '
+           'reproduced by Model/Convert2.v round_code and compared on the rounded-wide stream, not a clause of the property',
+           'A Decimal count (the output of RoundedVotes) cannot be combined with Fraction counts by later converters (TypeError in Fraction * Decimal): '
+           'Chains with RoundedVotes before an accumulating converter are outside the explored domain',
+           'ByConstituency deeper than one level, SubsettedVotes(depth > 0), IndividualToPartyMapper(independents=keep / error): not exercised; '
+           'MergedSelections is modelled and compared, no theorem (it merges rankings, not votes)']
 TRUSTED = []
 KINDS = {'approval_simple': 1, 'first_pref': 2, 'first_n': 3, 'presence': 4, 'ranked_approval': 5, 'positional': 6,
          'condorcet': 7, 'score_ranked': 8, 'score_approval': 9, 'inverted_approval': 10, 'party': 11,
@@ -145,6 +166,8 @@ def enc_key(k):
     if k is None:
         return []
     if isinstance(k, str):
+        if k.startswith('district'):
+            return int(k[8:])
         return cnum(k) if not k.startswith('party') else int(k[5:])
     if isinstance(k, frozenset):
         items = list(k)
@@ -263,6 +286,9 @@ def spec(c, io, mo):
 
 
 def known_class(c, io, mo):
+    # still the recorded behaviour: the model reproduces it (or the chain leaves the modelled fragment before it gets there)
+    if c.get('unit') == 'code' and canon2(c, mo) in (canon2(c, io), ('unmodelled',)):
+        return {'split-empty': 'C13-approval-split-empty'}.get(c.get('_class'))
     return None
 
 
@@ -601,51 +627,528 @@ def gen_rounded(rng, count):
         yield dict(unit='rounded', ktype=t, decimals=d, method=method, votes=[[b, rounded_value(rng, d)] for b in bal], names=names)
 
 
+# ---- RoundedVotes against the model (unit 210, Model/Convert2.v): code (3 mode d) = exact rounding [round_q]; code (13 via mode d) = the
+# ---- computation as the library does it [round_code]: Fractions go through one division at 28 significant digits first, and quantize
+# ---- refuses results of more than 28 digits (InvalidOperation).  exact_round stays as an independent declarative oracle (spec).
+MODE_NUM = {None: 0, 'ROUND_HALF_UP': 0, 'ROUND_HALF_DOWN': 1, 'ROUND_HALF_EVEN': 2, 'ROUND_UP': 3, 'ROUND_DOWN': 4, 'ROUND_CEILING': 5,
+            'ROUND_FLOOR': 6, 'ROUND_05UP': 7}
+
+
+def key_json(kt, b):
+    """JSON ballot -> JSON-able wire key, by ballot type"""
+    if kt == 'r':
+        return [i if isinstance(i, int) else sorted(i) for i in b]
+    if kt == 'a':
+        return sorted(b)
+    if kt == 's':
+        return [[cc, q(s_)] for cc, s_ in sorted(b)]
+    return b
+
+
+def rounded_code_sx(c):
+    d, m = c['decimals'], MODE_NUM[c.get('method')]
+    if c.get('path') == 'code':
+        via = any(w[0] == 'frac' for _, w in c['votes']) if not c.get('chain') else True
+        return '(13 %d %d %d)' % (1 if via else 0, m, d)
+    return '(3 %d %d)' % (m, d)
+
+
+def rounded_line(c):
+    rc = rounded_code_sx(c)
+    if c.get('chain'):
+        return '%d ((11 ((1 1 1) %s)) (0 %s))' % (BLOCK['C13'], rc, sx([[sorted(b), q(w)] for b, w in c['votes']]))
+    return '%d (%s (0 %s))' % (BLOCK['C13'], rc, sx([[key_json(c['ktype'], b), Fraction(w[1])] for b, w in c['votes']]))
+
+
+def out_wire(out):
+    """any converter output -> wire (tag payload); counts exact (a float raises FloatLeak)"""
+    if isinstance(out, dict):
+        vals = list(out.values())
+        if vals and all(isinstance(v, dict) for v in vals):
+            return '(1 (%s))' % ' '.join('(%s (%s))' % (sx(enc_key(k)), ' '.join('(%s %s)' % (sx(enc_key(kk)), sx(q(v))) for kk, v in d.items()))
+                                         for k, d in out.items())
+        return '(0 (%s))' % ' '.join('(%s %s)' % (sx(enc_key(k)), sx(q(v))) for k, v in out.items())
+    if isinstance(out, list):
+        return '(2 %s)' % sx([enc_key(k) for k in out])
+    raise TypeError('converter output %r' % (out,))
+
+
+def rounded_impl(c):
+    _LONG[0] = c.get('names') == 'long'
+    return '(0 %s)' % out_wire(rounded_run(c))
+
+
+def canon2(c, wire):
+    """exact comparison: same keys (also the zero-count ones), same counts; nested dictionaries per outer key; selections in order"""
+    v = common.parse_sx(wire)
+    if v[0] == 4:
+        return ('unmodelled',)
+    if v[0] != 0:
+        return ('err', v[1])
+    tag, payload = v[1]
+    if tag in (0, 1) and payload == []:
+        return ('ok', 'empty')
+    if tag == 0:
+        return ('ok', 0, tuple(sorted((repr(k), common.unq(x)) for k, x in payload)))
+    if tag == 1:
+        return ('ok', 1, tuple(sorted((repr(k), tuple(sorted((repr(kk), common.unq(x)) for kk, x in d))) for k, d in payload)))
+    if tag == 2:
+        return ('ok', 2, tuple(repr(k) for k in payload))
+    return ('ok', tag, repr(payload))
+
+
+def rounded_spec(c, io, mo):
+    """the declarative oracle: every count equals its exact rational rounding, keys unchanged (inside the domain where the single
+    28 digit division of the library is exact: [_fits]); refusals as documented"""
+    if c['decimals'] < 0:
+        return None if common.parse_sx(io) == [1, common.E['VALUE']] else 'negative number of decimals must be refused with ValueError'
+    if c.get('wide'):
+        return None                # outside the exact domain: only model [round_code] = implementation is decided
+    w = rounded_why(c)
+    return w[0] if w else None
+
+
 def rounded_stream(ctx, stream, cases):
-    nd = n = 0
+    cases = list(cases)
     for c in cases:
-        n += 1
-        ctx.evaluations += 1
-        ctx.dist['stream:' + stream] += 1
         ctx.dist['rounded:%s' % (c.get('method') or 'default')] += 1
+        ctx.dist['rounded:path-%s' % c.get('path', 'exact')] += 1
         if c.get('chain'):
             ctx.dist['rounded:chain'] += 1
+        if c.get('wide'):
+            ctx.dist['rounded:wide-%s' % c['wide']] += 1
         if rounded_has_tie(c):
             ctx.dist['rounded:exact-half'] += 1
-        if rounded_nontrivial(c):
-            ctx.nontrivial.add(common.case_hash(c))
-        w = rounded_why(c)
-        if w:
-            nd += 1
-            ctx.checker_false += 1
-            ctx.report(stream, c, w[1], w[2], w[0], None)
-        elif len(ctx.samples) < 3 and rounded_has_tie(c):
-            ctx.samples.append(dict(stream=stream, case=c, impl='= exact rounding', model='n/a (harness oracle exact_round)'))
-    ctx.streams[stream] = dict(cases=n, deviations=nd)
+    ctx.differential(stream, cases, rounded_line, rounded_impl, canon=canon2, nontrivial=rounded_nontrivial, spec=rounded_spec,
+                     known_class=known_class)
 
 
-def impl_only_checks(ctx, rng, count):
-    """additivity on the implementation for converters without a model"""
-    import votelib.convert as conv
-    bad = 0
+def gen_wide(rng, count):
+    """counts outside the exact domain of the library's Decimal arithmetic, decided against [round_code] only: Fractions with more than
+    28 significant digits (non-terminating next to a rounding boundary, terminating with 29..40 digits exactly on / beside a half), Decimals
+    of more than 28 digits (exact: no division), results that need more than 28 digits (InvalidOperation)"""
     for _ in range(count):
-        ctx.evaluations += 1
-        d1 = {cname(k): rng.randint(0, 9) for k in range(1, rng.randint(2, 5))}
-        d2 = {cname(k): rng.randint(0, 9) for k in range(1, rng.randint(2, 5))}
-        votes = {'X': d1, 'Y': d2}
-        tot = conv.VoteTotals().convert(votes)
-        ct = conv.ConstituencyTotals().convert(votes)
-        inv = conv.InvertedSimpleVotes.convert(d1)
-        ch = conv.Chain([conv.VoteTotals(), conv.InvertedSimpleVotes()]).convert(votes)
-        ok_ = (all(tot.get(k, 0) == d1.get(k, 0) + d2.get(k, 0) for k in set(d1) | set(d2))
-               and ct == {'X': sum(d1.values()), 'Y': sum(d2.values())}
-               and inv == {k: -v for k, v in d1.items()}
-               and ch == {k: -v for k, v in tot.items()})
-        if not ok_:
-            bad += 1
-            ctx.violations.append(dict(stream='impl-only', case=dict(d1=d1, d2=d2), impl=str((tot, ct, inv, ch)), model='n/a',
-                                       why='VoteTotals / ConstituencyTotals / InvertedSimpleVotes / Chain not additive'))
-    ctx.streams['impl-only'] = dict(cases=count, deviations=bad)
+        d = rng.choice([0, 0, 1, 2, 4, 6])
+        unit = Fraction(1, 10 ** d)
+        method = rng.choice([None, 'ROUND_HALF_UP', 'ROUND_HALF_DOWN'] + ROUND_METHODS)
+        shape = rng.choice(['frac-near-half', 'frac-near-half', 'frac-near-grid', 'frac-third', 'dec-long', 'overflow', 'frac-long-int'])
+        k = rng.randint(0, 120)
+        eps = Fraction(rng.choice([1, 1, 3, 7]), 10 ** rng.randint(27, 40)) * rng.choice([1, -1])
+        tag = 'frac'
+        if shape == 'frac-near-half':
+            x = k * unit + unit / 2 + eps
+        elif shape == 'frac-near-grid':
+            x = k * unit + eps
+            if x < 0:
+                x = -x
+        elif shape == 'frac-third':
+            x = Fraction(rng.randint(1, 10 ** rng.randint(1, 30)), rng.choice([3, 7, 9, 11, 13, 10 ** 20 + 39, 3 * 10 ** 27 + 1]))
+        elif shape == 'dec-long':
+            x = k * unit + unit / 2 + eps
+            tag = 'dec'
+        elif shape == 'overflow':
+            x = Fraction(10 ** rng.randint(27 - d, 29 - d)) + rng.choice([0, Fraction(1, 2), Fraction(-1, 2), Fraction(1, 3)])
+            tag = rng.choice(['frac', 'dec', 'int']) if x.denominator == 1 else ('frac' if not _terminating(x) else rng.choice(['frac', 'dec']))
+        else:
+            x = Fraction(10 ** rng.randint(28, 33) + rng.randint(0, 10 ** 6)) / rng.choice([1, 2, 4, 5])
+        if rng.random() < 0.1:
+            x = -x
+        if tag == 'dec':
+            val = ['dec', _dec_str(x)]
+        elif tag == 'int':
+            val = ['int', str(x)]
+        else:
+            val = ['frac', str(x)]
+        others = []
+        for j in range(rng.randint(0, 2)):       # companions inside the exact domain, same number type
+            y = Fraction(rng.randint(0, 1000), 1 if tag == 'int' else rng.choice([1, 2, 4, 8, 10]))
+            others.append([j + 2, [tag, _dec_str(y) if tag == 'dec' else str(y)]])
+        yield dict(unit='rounded', ktype='p', decimals=d, method=method, votes=[[1, val]] + others, names='short', path='code', wide=shape)
+
+
+# ---- converter codes (unit 210): VoteTotals / MergedDistributions, ConstituencyTotals / PartyTotals, InvertedSimpleVotes, GroupVotesByParty,
+# ---- IndividualToPartyResult, SelectionToDistribution, MergedSelections, ByConstituency, Chain - alone and composed with the 15 accumulating
+# ---- converters and RoundedVotes.  A code is a JSON list: ['conv', kind, cfg] | ['inv'] | ['rounded', method, decimals] | ['totals'] |
+# ---- ['merged_dist'] | ['const_totals'] | ['party_totals'] | ['group', mode] | ['party_result', mode] | ['sel2dist', amount] | ['merged_sel'] |
+# ---- ['by', code] | ['chain', [code, ...]].  Data: {'t': 'flat' | 'nested' | 'sel' | 'nsel', 'kt': ballot type, 'votes' | 'l': ...}.
+from units import BLOCK
+
+
+def pm_sx(c, mode):
+    out = []
+    for cand, party in c.get('party', []):
+        if party is not None:
+            out.append([cand, party])
+        elif mode == 'ignore':
+            out.append([cand, 0])
+    return sx(out)
+
+
+def code_sx(code, c):
+    t = code[0]
+    if t == 'conv':
+        if code[1] == 'party':
+            return '(1 11 %s)' % pm_sx(c, code[2])
+        return '(1 %d %s)' % (KINDS[code[1]], cfg_sx(dict(kind=code[1], cfg=code[2])))
+    if t == 'inv':
+        return '(2)'
+    if t == 'rounded':
+        return '(3 %d %d)' % (MODE_NUM[code[1]], code[2])
+    if t in ('totals', 'merged_dist'):
+        return '(4)'
+    if t in ('const_totals', 'party_totals'):
+        return '(5)'
+    if t == 'group':
+        return '(6 %s)' % pm_sx(c, code[1])
+    if t == 'party_result':
+        return '(7 %s)' % pm_sx(c, code[1])
+    if t == 'sel2dist':
+        return '(8 %s)' % sx(q(code[1]))
+    if t == 'merged_sel':
+        return '(9)'
+    if t == 'by':
+        return '(10 %s)' % code_sx(code[1], c)
+    if t == 'chain':
+        return '(11 (%s))' % ' '.join(code_sx(x, c) for x in code[1])
+    raise ValueError(code)
+
+
+def fvotes_sx(kt, votes):
+    return sx([[key_json(kt, b), q(w)] for b, w in votes])
+
+
+def data_sx(data):
+    t, kt = data['t'], data.get('kt')
+    if t == 'flat':
+        return '(0 %s)' % fvotes_sx(kt, data['votes'])
+    if t == 'nested':
+        return '(1 (%s))' % ' '.join('(%d %s)' % (k, fvotes_sx(kt, v)) for k, v in data['votes'])
+    if t == 'sel':
+        return '(2 %s)' % sx(list(data['l']))
+    return '(3 (%s))' % ' '.join('(%d %s)' % (k, sx(list(l))) for k, l in data['votes'])
+
+
+def code_line(c):
+    return '%d (%s %s)' % (BLOCK['C13'], code_sx(c['code'], c), data_sx(c['data']))
+
+
+def build_converter(code, c):
+    import decimal
+    import votelib.convert as conv
+    import votelib.candidate as cd
+    t = code[0]
+    if t == 'conv':
+        if code[1] == 'party':
+            return conv.IndividualToPartyVotes(cd.IndividualToPartyMapper(independents=code[2]))
+        return converter(dict(kind=code[1], cfg=code[2]))
+    if t == 'inv':
+        return conv.InvertedSimpleVotes()
+    if t == 'rounded':
+        return conv.RoundedVotes(code[2]) if code[1] is None else conv.RoundedVotes(code[2], round_method=getattr(decimal, code[1]))
+    if t == 'totals':
+        return conv.VoteTotals()
+    if t == 'merged_dist':
+        return conv.MergedDistributions()
+    if t == 'const_totals':
+        return conv.ConstituencyTotals()
+    if t == 'party_totals':
+        return conv.PartyTotals()
+    if t == 'group':
+        return conv.GroupVotesByParty(cd.IndividualToPartyMapper(independents=code[1]))
+    if t == 'party_result':
+        return conv.IndividualToPartyResult(cd.IndividualToPartyMapper(independents=code[1]))
+    if t == 'sel2dist':
+        a = q(code[1])
+        return conv.SelectionToDistribution(int(a) if a.denominator == 1 else a)
+    if t == 'merged_sel':
+        return conv.MergedSelections()
+    if t == 'by':
+        return conv.ByConstituency(build_converter(code[1], c))
+    if t == 'chain':
+        return conv.Chain([build_converter(x, c) for x in code[1]])
+    raise ValueError(code)
+
+
+def py_key(kt, b, objs):
+    if kt == 'r':
+        return tuple(cname(i) if isinstance(i, int) else frozenset(cname(x) for x in i) for i in b)
+    if kt == 'a':
+        return frozenset(cname(x) for x in b)
+    if kt == 's':
+        return frozenset((cname(cc), int(q(s_)) if q(s_).denominator == 1 else q(s_)) for cc, s_ in b)
+    if kt == 'P':
+        return objs[b]
+    return cname(b)
+
+
+def py_data(data, c):
+    pm = dict((a, b) for a, b in c.get('party', []))
+    objs = {cc: _P(cname(cc), None if pm.get(cc) is None else ('party%d' % pm[cc])) for cc in pm}
+    wt = lambda w: int(q(w)) if q(w).denominator == 1 else q(w)
+    t, kt = data['t'], data.get('kt')
+    fv = lambda votes: {py_key(kt, b, objs): wt(w) for b, w in votes}
+    if t == 'flat':
+        return fv(data['votes'])
+    if t == 'nested':
+        d = {'district%d' % k: fv(v) for k, v in data['votes']}
+        return list(d.values()) if data.get('aslist') else d
+    if t == 'sel':
+        return [py_key(kt, b, objs) for b in data['l']]
+    d = {'district%d' % k: [py_key(kt, b, objs) for b in l] for k, l in data['votes']}
+    return list(d.values()) if data.get('aslist') else d
+
+
+def run_code_impl(c, data=None):
+    _LONG[0] = c.get('names') == 'long'
+    return build_converter(c['code'], c).convert(py_data(c['data'] if data is None else data, c))
+
+
+def code_impl(c):
+    out = run_code_impl(c)
+    return '(0 %s)' % out_wire(out)
+
+
+def code_names(code):
+    t = code[0]
+    if t == 'by':
+        return ['by'] + code_names(code[1])
+    if t == 'chain':
+        return ['chain'] + [n for x in code[1] for n in code_names(x)]
+    return [t + (':' + code[1] if t == 'conv' else '')]
+
+
+LINEAR = {'inv', 'group', 'totals', 'merged_dist', 'const_totals', 'party_totals', 'conv:approval_simple', 'conv:first_pref', 'conv:first_n',
+          'conv:presence', 'conv:ranked_approval', 'conv:score_approval', 'conv:party', 'chain', 'by'}
+
+
+def flat_dict(wire):
+    """wire of a flat / nested result -> {repr key: Fraction} ({(outer, inner): ..} for nested), None for anything else"""
+    v = common.parse_sx(wire)
+    if v[0] != 0:
+        return None
+    tag, payload = v[1]
+    if tag == 0:
+        return {repr(k): common.unq(x) for k, x in payload}
+    if tag == 1:
+        return {(repr(k), repr(kk)): common.unq(x) for k, d in payload for kk, x in d}
+    return None
+
+
+def code_expected(c):
+    """independent declarative image of the converters that are not folds (plain Python over the JSON case); None = no expectation"""
+    code, data = c['code'], c['data']
+    t = code[0]
+    rk = lambda kt, b: repr(common.parse_sx(sx(key_json(kt, b))) if not isinstance(b, int) else b)
+    if t in ('totals', 'merged_dist') and data['t'] == 'nested':
+        out = {}
+        for _, v in data['votes']:
+            for b, w in v:
+                out[rk(data['kt'], b)] = out.get(rk(data['kt'], b), 0) + q(w)
+        return out
+    if t in ('const_totals', 'party_totals') and data['t'] == 'nested':
+        return {repr(k): sum((q(w) for _, w in v), Fraction(0)) for k, v in data['votes']}
+    if t == 'inv' and data['t'] == 'flat':
+        return {rk(data['kt'], b): -q(w) for b, w in data['votes']}
+    pm = dict((a, b) for a, b in c.get('party', []))
+    pkey = lambda cand, mode: ('skip' if mode == 'ignore' else repr([])) if pm.get(cand) is None else repr(pm[cand])
+    if t == 'group' and data['t'] == 'flat':
+        return {(pkey(b, code[1]), repr(b)): q(w) for b, w in data['votes'] if pkey(b, code[1]) != 'skip'}
+    if t == 'party_result' and data['t'] == 'sel':
+        out = {}
+        for b in data['l']:
+            if pkey(b, code[1]) != 'skip':
+                out[pkey(b, code[1])] = out.get(pkey(b, code[1]), 0) + 1
+        return out
+    if t == 'sel2dist' and data['t'] == 'sel':
+        return {repr(b): q(code[1]) for b in data['l']}
+    return None
+
+
+def split_data(data, mask):
+    if data['t'] == 'flat':
+        items = data['votes']
+    elif data['t'] == 'nested':
+        items = data['votes']
+    else:
+        return None
+    a = [v for v, m in zip(items, mask) if m]
+    b = [v for v, m in zip(items, mask) if not m]
+    if not a or not b:
+        return None
+    return dict(data, votes=a), dict(data, votes=b)
+
+
+def code_spec(c, io, mo):
+    """the clauses of the property on the implementation's own outputs: documented image, additivity over every sampled split of the
+    profile (ballots of a flat profile, constituencies of a nested one) for compositions of additive converters, total weight"""
+    if common.parse_sx(io)[0] != 0:
+        c['_class'] = 'crash:' + '+'.join(code_names(c['code']))
+        if common.parse_sx(io) == [1, common.E['ZERODIV']] and 'conv:approval_simple' in code_names(c['code']):
+            c['_class'] = 'split-empty'
+            return 'ApprovalToSimpleVotes(split=True) raises %s on an empty approval ballot' % c.get('_exc', 'ZeroDivisionError')
+        if common.parse_sx(mo)[0] in (1, 4):
+            return None
+        return 'converter raises %s' % c.get('_exc', '?')
+    got = flat_dict(io)
+    want = code_expected(c)
+    if want is not None and got != want:
+        return 'documented image differs: got %s, expected %s' % (got, want)
+    names = code_names(c['code'])
+    if got is None or not all(n in LINEAR for n in names):
+        return None
+    for mask in c.get('_splits') or []:
+        ab = split_data(c['data'], mask)
+        if ab is None:
+            continue
+        try:
+            da = flat_dict('(0 %s)' % out_wire(run_code_impl(c, ab[0])))
+            db = flat_dict('(0 %s)' % out_wire(run_code_impl(c, ab[1])))
+        except Exception:    # noqa
+            continue
+        if da is None or db is None:
+            continue
+        for k in set(da) | set(db) | set(got):
+            if da.get(k, 0) + db.get(k, 0) != got.get(k, 0):
+                c['_class'] = 'additivity:' + '+'.join(names)
+                return 'conv(A+B) != conv(A)+conv(B) at key %s (A=%s)' % (k, ab[0]['votes'])
+    if names[-1] in ('totals', 'merged_dist', 'const_totals', 'party_totals') and c['data']['t'] == 'nested' and len(names) == 1:
+        total_in = sum((q(w) for _, v in c['data']['votes'] for _, w in v), Fraction(0))
+        if sum(got.values(), Fraction(0)) != total_in:
+            return 'total weight %s -> %s' % (total_in, sum(got.values()))
+    return None
+
+
+def code_nontrivial(c):
+    d = c['data']
+    if d['t'] == 'nested':
+        return len(d['votes']) > 1
+    if d['t'] == 'flat':
+        return len(d['votes']) > 1 or len(code_names(c['code'])) > 1
+    return True
+
+
+def _count(rng, fractions=True, big=True):
+    r = rng.random()
+    if r < 0.1:
+        return 0
+    if fractions and r < 0.3:
+        return str(Fraction(rng.randint(1, 40), rng.choice([2, 3, 4, 7, 10])))
+    return rng.choice([1, 2, 3, 5, 7, 10, 250, 10 ** 20 if big else 10 ** 6])
+
+
+def typed_votes(rng, kt, m, nb, shared=0.25, fractions=True, big=True):
+    cnt = lambda: _count(rng, fractions, big)
+    if kt == 'r':
+        return [[b, cnt()] for b, _ in ranked_profile(rng, m, nb, shared)]
+    if kt == 'a':
+        return [[b, cnt()] for b, _ in approval_profile(rng, m, nb)] + ([[[], cnt()]] if rng.random() < 0.1 else [])     # blank ballot
+    if kt == 's':
+        return [[b, cnt()] for b, _ in score_profile(rng, m, nb)]
+    return [[cc, cnt()] for cc in rng.sample(range(1, m + 1), rng.randint(1, m))]
+
+
+def gen_totals(rng, count):
+    for _ in range(count):
+        m = rng.randint(2, 5)
+        names = rng.choice(['short', 'long'])
+        party = [[cc, rng.choice([1, 2, 3, None])] for cc in range(1, m + 1)]
+        mode = rng.choice(['aggregate', 'aggregate', 'ignore'])
+        shape = rng.choice(['nested', 'nested', 'nested', 'flat', 'persons', 'persons', 'sel', 'nsel'])
+        c = dict(unit='code', names=names)
+        if shape == 'nested':
+            kt = rng.choice(['p', 'p', 'p', 'r', 'a', 's'])
+            nd = rng.randint(1, 4)
+            votes = [[k, typed_votes(rng, kt, m, rng.randint(0, 4)) if rng.random() > 0.08 else []] for k in range(1, nd + 1)]
+            data = dict(t='nested', kt=kt, votes=votes)
+            inner = {'p': [['inv'], ['rounded', rng.choice([None] + ROUND_METHODS), rng.randint(0, 3)]],
+                     'r': [['conv', 'first_pref', None], ['conv', 'presence', None], ['conv', 'ranked_approval', None],
+                           ['conv', 'positional', rng.choice([['borda', 1], ['dowdall', 0], ['modified', 0]])], ['conv', 'condorcet', rng.random() < 0.5]],
+                     'a': [['conv', 'approval_simple', rng.random() < 0.5], ['conv', 'inverted_approval', None]],
+                     's': [['conv', 'score_approval', str(rng.randint(0, 5))], ['conv', 'score_ranked', None]]}[kt]
+            by = ['by', rng.choice(inner)]
+            code = rng.choice([['totals'], ['totals'], ['merged_dist'], ['const_totals'], ['party_totals'], by, by,
+                               ['chain', [['totals'], ['inv']]], ['chain', [['totals'], ['rounded', rng.choice(ROUND_METHODS), rng.randint(0, 2)]]],
+                               ['chain', [by, ['totals']]], ['chain', [by, ['const_totals']]], ['by', ['chain', [rng.choice(inner), ['inv']]]],
+                               ['chain', [['chain', [by]], ['merged_dist']]]])
+            if code[0] == 'merged_dist' and rng.random() < 0.5:
+                data['aslist'] = True
+            if 'rounded' in code_names(code):        # Decimal counts do not mix with Fractions downstream: rounding last, or before inv
+                if code[0] == 'chain' and code[1][0][0] == 'by' and code[1][0][1][0] == 'rounded':
+                    code = by
+            c.update(code=code, data=data, _splits=splits_for(rng, len(votes)))
+        elif shape == 'flat':
+            kt = rng.choice(['p', 'p', 'r', 'a'])
+            votes = typed_votes(rng, kt, m, rng.randint(1, 5))
+            code = rng.choice([['inv'], ['inv'], ['chain', [['inv'], ['inv']]], ['chain', []], ['chain', [['inv'], ['rounded', None, 1]]],
+                               ['chain', [['rounded', 'ROUND_HALF_EVEN', 0], ['inv']]]])
+            c.update(code=code, data=dict(t='flat', kt=kt, votes=votes), _splits=splits_for(rng, len(votes)))
+        elif shape == 'persons':
+            votes = [[cc, _count(rng)] for cc in rng.sample(range(1, m + 1), rng.randint(1, m))]
+            code = rng.choice([['group', mode], ['group', mode], ['conv', 'party', mode], ['chain', [['group', mode], ['party_totals']]],
+                               ['chain', [['group', mode], ['totals']]], ['chain', [['group', mode], ['by', ['inv']], ['const_totals']]],
+                               ['chain', [['conv', 'party', mode], ['inv']]]])
+            c.update(code=code, data=dict(t='flat', kt='P', votes=votes), party=party, _splits=splits_for(rng, len(votes)))
+        elif shape == 'sel':
+            l = [rng.randint(1, m) for _ in range(rng.randint(0, 5))] if rng.random() < 0.3 else rng.sample(range(1, m + 1), rng.randint(0, m))
+            if rng.random() < 0.5:
+                c.update(code=['party_result', mode], data=dict(t='sel', kt='P', l=l), party=party)
+            else:
+                c.update(code=['sel2dist', rng.choice([1, 1, 2, '1/2'])], data=dict(t='sel', kt='p', l=l))
+        else:
+            nd = rng.randint(1, 4)
+            votes = [[k, rng.sample(range(1, m + 1), rng.randint(0, m))] for k in range(1, nd + 1)]
+            data = dict(t='nsel', kt='p', votes=votes)
+            code = rng.choice([['merged_sel'], ['merged_sel'], ['by', ['sel2dist', 1]], ['chain', [['by', ['sel2dist', rng.choice([1, 2])]], ['merged_dist']]],
+                               ['chain', [['by', ['sel2dist', 1]], ['const_totals']]]])
+            if code[0] == 'merged_sel' and rng.random() < 0.5:
+                data['aslist'] = True
+            c.update(code=code, data=data)
+        yield c
+
+
+# chain links by ballot type: (code, type of the result); 'k' = keys no later converter reads (pairs, parties, shared first ranks)
+def chain_link(rng, kt, shared):
+    rounded = ['rounded', rng.choice([None] + ROUND_METHODS), rng.randint(0, 4)]
+    if kt == 'r':
+        return rng.choice([(['conv', 'first_pref', None], 'k' if shared else 'p'), (['conv', 'first_n', rng.randint(1, 3)], 'a'),
+                           (['conv', 'presence', None], 'p'), (['conv', 'ranked_approval', None], 'a'),
+                           (['conv', 'positional', rng.choice([['borda', 1], ['borda', 0], ['dowdall', 0], ['geometric', 2], ['modified', 0],
+                                                              ['fixedtop', 2], ['sequence', ['5', '3', '1']]])], 'p'),
+                           (['conv', 'condorcet', rng.random() < 0.5], 'k'), (['inv'], 'r'), (rounded, 'end')])
+    if kt == 'a':
+        return rng.choice([(['conv', 'approval_simple', True], 'p'), (['conv', 'approval_simple', False], 'p'),
+                           (['conv', 'inverted_approval', None], 'a'), (['inv'], 'a'), (rounded, 'end')])
+    if kt == 's':
+        return rng.choice([(['conv', 'score_ranked', rng.choice([None, None, '0', '2'])], 'r'), (['conv', 'score_approval', str(rng.randint(0, 5))], 'a'),
+                           (['inv'], 's'), (rounded, 'end')])
+    if kt == 'end':
+        return rng.choice([(['inv'], 'end'), (rounded, 'end')])
+    return rng.choice([(['inv'], kt), (['inv'], kt), (rounded, 'end')])
+
+
+def gen_chain(rng, count):
+    for _ in range(count):
+        m = rng.randint(2, 5)
+        kt0 = rng.choice(['r', 'r', 'a', 's', 's', 'p'])
+        shared = rng.choice([0, 0.25])
+        votes = typed_votes(rng, kt0, m, rng.randint(1, 5), shared, fractions=rng.random() < 0.5, big=False)
+        links, kt = [], kt0
+        for _ in range(rng.choice([1, 2, 2, 3, 3, 4])):
+            code, kt = chain_link(rng, kt, shared > 0)
+            links.append(code)
+        if len(links) >= 3 and rng.random() < 0.3:
+            links = [links[0], ['chain', links[1:]]]
+        code = ['chain', links] if rng.random() < 0.85 or len(links) > 1 else links[0]
+        yield dict(unit='code', names=rng.choice(['short', 'long']), code=code, data=dict(t='flat', kt=kt0, votes=votes),
+                   _splits=splits_for(rng, len(votes)))
+
+
+def code_stream(ctx, stream, cases):
+    cases = list(cases)
+    for c in cases:
+        for n in set(code_names(c['code'])):
+            ctx.dist['code:' + n] += 1
+    ctx.differential(stream, cases, code_line, code_impl, canon=canon2, nontrivial=code_nontrivial, spec=code_spec, known_class=known_class)
 
 
 def corpus():
@@ -657,14 +1160,24 @@ def corpus():
 def explore(ctx, widen=1):
     kw = dict(canon=canon, nontrivial=nontrivial, spec=spec, known_class=known_class)
     cp = list(corpus())
-    ctx.differential('corpus', [c for c in cp if c.get('unit') != 'rounded'], model_line, impl, **kw)
+    ctx.differential('corpus', [c for c in cp if c.get('unit') not in ('rounded', 'code')], model_line, impl, **kw)
     rounded_stream(ctx, 'corpus-rounded', [c for c in cp if c.get('unit') == 'rounded'])
+    code_stream(ctx, 'corpus-code', [c for c in cp if c.get('unit') == 'code'])
     ctx.differential('random', gen(ctx.rng, ctx.n(3000, 40000) * widen), model_line, impl, **kw)
-    impl_only_checks(ctx, ctx.rng, ctx.n(300, 3000))
-    rounded_stream(ctx, 'rounded', gen_rounded(ctx.rng, ctx.n(2500, 30000) * widen))
+    code_stream(ctx, 'totals', gen_totals(ctx.rng, ctx.n(1200, 15000) * widen))
+    code_stream(ctx, 'chain', gen_chain(ctx.rng, ctx.n(1500, 20000) * widen))
+
+    def paths(cases):
+        for c in cases:
+            c['path'] = ctx.rng.choice(['exact', 'code'])
+            yield c
+    rounded_stream(ctx, 'rounded', paths(gen_rounded(ctx.rng, ctx.n(2500, 30000) * widen)))
+    rounded_stream(ctx, 'rounded-wide', gen_wide(ctx.rng, ctx.n(600, 8000) * widen))
 
 
 def replay(ctx, case, stream=None):
     if case.get('unit') == 'rounded':
         return rounded_stream(ctx, 'replay', [case])
+    if case.get('unit') == 'code':
+        return code_stream(ctx, 'replay', [case])
     ctx.differential('replay', [case], model_line, impl, canon=canon, nontrivial=nontrivial, spec=spec, known_class=known_class)
